@@ -286,7 +286,11 @@ func (r *Rec) Fail(key, detail string, replay any) bool {
 			rf := ReplayFile{Prop: r.Cfg.Prop, Key: key, Detail: detail, Case: b}
 			out, _ := json.MarshalIndent(rf, "", " ")
 			sum := sha256.Sum256([]byte(key))
-			os.WriteFile(filepath.Join(dir, hex.EncodeToString(sum[:6])+".json"), out, 0o644)
+			dst := filepath.Join(dir, hex.EncodeToString(sum[:6])+".json")
+			tmp := fmt.Sprintf("%s.%d.tmp", dst, os.Getpid())
+			if os.WriteFile(tmp, out, 0o644) == nil {
+				os.Rename(tmp, dst)
+			}
 		}
 		if h == nil {
 			if len(detail) > 600 {
